@@ -112,8 +112,10 @@ def _run_urls(uri_lists, steps):
         if o == 'transient':
             return _Resp(500, [{'id': 'node.mempool.busy', 'kind': 'temporary'}])
         return _Resp(200, {'ok': True})
-    old_req, old_sleep = requests.request, N.sleep
-    requests.request, N.sleep = fake, (lambda d: None)
+    from props.C26_R import patched_sleep        # sleep is silenced however node.py imports it (N.sleep / time.sleep)
+    old_req = requests.request
+    requests.request = fake
+    ps = patched_sleep(N, lambda d: None).__enter__()
     got = []
     try:
         for j, (ci, how, outcome) in enumerate(steps):
@@ -125,7 +127,8 @@ def _run_urls(uri_lists, steps):
                 pass
             got.append(list(seen))
     finally:
-        requests.request, N.sleep = old_req, old_sleep
+        requests.request = old_req
+        ps.__exit__()
     return got
 
 
